@@ -413,7 +413,7 @@ pub fn run(args: &Args, rep: &mut Report) {
         }
     }
     // ---- (e) random slot soup
-    let soups = if thorough { 1_000_000 } else { 80_000 } / nshards;
+    let soups = if thorough { 12_000_000 } else { 80_000 } / nshards;
     for i in 0..soups {
         let len = 2 + rng.usize_below(22);
         let mut slots: Vec<Slot> = Vec::new();
